@@ -12,32 +12,47 @@ from fractions import Fraction
 from vcheck import Case, gnlist, gq, gbool, gzmat, gzlist
 import tgen
 from props.c10 import rq, gqmat, gqlist
+from props import c14_util as cu
 
 PROP = "C14"
 LEVEL = "proof"
-GEN_UNITS = []
+GEN_UNITS = ["GenUtils", "GenUtils2"]     # C14_gram_dense_code / C14_gram_tucker_code are stated over the generated gather_wrap_dims
 SHARD = 8
 COQ_TARGETS = ["Props/C14.vo", "Model/C14Check.vo", "Model/Harness.vo"]
 THEOREM_FILES = ["Props/C14.v"]
 COQ_IMPORTS = ("From Coq Require Import List ZArith Bool QArith Qcanon.\n"
                "From PV Require Import Base.Index Np.Array Model.Sparse Model.Repr Model.Harness Model.C10Tucker Model.C10Check "
                "Model.C14Nvecs Model.C14Check.\n")
-RULE = ("integer tensors (Tucker-structured low rank with integer core/factors, and unstructured) with mode sizes 1..5, 2- to 4-way, each held "
-        "dense/sparse/Kruskal/Tucker (dense core and sparse core with dense factors); sequences of nvecs calls over all modes on one "
-        "object (Kruskal with non-unit weights); all modes n, all 1 <= r <= size (iterative path r < size-1 and dense path), flipsign on/off; "
+RULE = ("integer tensors (Tucker-structured low rank with integer core/factors, and unstructured) with mode sizes 1..6, 2- to 4-way, each held "
+        "dense/sparse/Kruskal/Tucker (dense core and sparse core with dense factors); all modes n, all 1 <= r <= size (iterative path "
+        "r < size-1 and dense path), flipsign on/off; holder variants: arrays held C-contiguous or as non-contiguous views, data scaled by "
+        "2^(+-24) (Kruskal: in the weights or in one factor), dense tensors held in float32/int64/int32/int16/int8/uint8/uint16 with "
+        "magnitudes whose slice inner products overflow that dtype, Tucker/Kruskal factors with unit-norm columns (signed unit vectors: "
+        "orthonormal, or repeated = not orthogonal; generic directions normalised on the 2^-30 grid); sequences of nvecs calls over all modes "
+        "on ONE object with another operation between the calls (normalize / normalize(weight_factor=k|'all') / normalize(sort) / arrange / "
+        "fixsigns / redistribute / full / norm / innerprod / ttv / to_tenmat / collapse), sparse sequences checked at the Gram matrix; "
         "agreement across representations only where the eigen-gap at r is > 1e-3 relative; non-trivial = mode size >= 2; "
         "distinct = distinct (op,args)")
-CORRESPONDENCE_ONLY = ["scipy.sparse product inside sptensor.nvecs (modelled as the coordinate-level COO product) and the sparse-core branch of "
-                       "ttensor.nvecs (to_sptenmat unfoldings): recorded solver input = gram_spec of the denotation, on samples",
-                       "to_tenmat unfoldings used by the dense / Tucker Gram: modelled as tabulated unfoldings (C01/C07 own the general theorem)",
+CORRESPONDENCE_ONLY = ["scipy.sparse products (COO x COO in sptensor.nvecs, COO x ndarray in the sparse-core branch of ttensor.nvecs) compute the matrix "
+                       "product of the arrays the COO matrices denote: library oracle; C14_coo_product proves that the coordinate-level model "
+                       "is that matrix product, the recorded solver input is compared with the model on every sample",
+                       "sptensor.nvecs' re-keying reshape(...).squeeze().spmatrix() and the multi-mode sptensor.ttm chain producing H in the "
+                       "sparse-core branch (C14_gram_tucker_sparse_core holds for every well-formed H with the right denotation; the "
+                       "single-mode product is C02_ttm_sparse): recorded solver input = model = gram_spec on samples",
                        "eigen solvers eigh/eigsh/eig/eigs: certificate-checked oracles"]
-ASSUMPTIONS = ["floats converted exactly (solver output) or on the 2^-40 grid (returned vectors) to rationals",
+ASSUMPTIONS = ["floats converted exactly (solver input/output) or on the 2^-40 grid (returned vectors) to rationals; recorded solver input of "
+               "scaled data divided exactly by 4^exponent in the harness",
+               "inputs whose products are rounded (after normalize/arrange/redistribute, factors on the 2^-30 grid) are compared within 1e-12*trace",
                "degenerate leading spectra are excluded from the cross-representation agreement (quantifier of the property)",
                "theorems: ring-generic (closed) for the Gram identities; stdlib Reals for the post-processing order/sign theorems"]
 EXPLANATION = ("C14_gram_dense / _sparse / _kruskal / _tucker: the Gram matrix the code forms equals gram_spec of the denotation (any ring, "
-               "shape, mode) — the four executable code models are evaluated on every sampled input against the recorded solver input; "
-               "op seq calls nvecs for every mode on ONE object and checks each result against the original denotation; C14_postprocess_*: argsort(-|w|) selection and sign rule for any solver output; correspondence: recorded "
-               "solver input/output tie the model to the code, the result is certificate-checked in Qc.")
+               "shape, mode); C14_gram_dense_code / C14_gram_tucker_code / C14_gram_tucker_sparse_core: the same matrices built from the "
+               "GENERATED gather_wrap_dims + C01's to_tenmat / to_sptenmat(+constructor) / double + tensor.ttm transliterations; "
+               "C14_coo_product: the COO product model is the matrix product of the denotations; all executable code models are evaluated "
+               "on every exact sampled input against the recorded solver input; op seq calls nvecs for every mode on ONE object (other "
+               "operations between the calls) and checks each result against the original denotation; C14_postprocess / C14_sign_rule: "
+               "argsort(-|w|) selection and sign rule for any solver output; correspondence: recorded solver input/output tie the model "
+               "to the code, the result is certificate-checked in Qc.")
 
 
 # ---------------------------------------------------------------- bundles: one tensor in four representations
@@ -54,14 +69,28 @@ def _full_tucker(shape, cshape, core, Us):
     return out
 
 
-def _bundle_tucker(rng, shape):
+def _bundle_tucker(rng, shape, fkinds=None):
+    """fkinds[n] in generic | unit (signed unit vectors, repeated: unit norm, not orthogonal) | ortho (distinct signed unit vectors) |
+    gridnorm (generic directions, norm 1 up to 2^-29, integers to be scaled by 2^-30: key fexp)"""
     d = len(shape)
     cshape = [rng.randint(1, min(s, 2 if d > 2 else 3)) for s in shape]
+    if fkinds:
+        cshape = [min(shape[n], 2) if fkinds[n] != "generic" else cshape[n] for n in range(d)]
     while True:
         core = tgen.rand_dense(rng, cshape, rng.choice([0.6, 1.0]), -2, 3)
         if any(core):
             break
-    Us = [[[rng.randint(-2, 2) for _ in range(cshape[n])] for _ in range(shape[n])] for n in range(d)]
+    Us = []
+    for n in range(d):
+        k = fkinds[n] if fkinds else "generic"
+        if k == "unit":
+            Us.append(cu.unit_factor(rng, shape[n], cshape[n], False))
+        elif k == "ortho":
+            Us.append(cu.unit_factor(rng, shape[n], cshape[n], True))
+        elif k == "gridnorm":
+            Us.append(cu.gridnorm_factor(rng, shape[n], cshape[n]))
+        else:
+            Us.append([[rng.randint(-2, 2) for _ in range(cshape[n])] for _ in range(shape[n])])
     data = _full_tucker(shape, cshape, core, Us)
     weights, cols = [], [[] for _ in range(d)]
     for j, g in zip(tgen.all_subs(cshape), core):
@@ -70,13 +99,16 @@ def _bundle_tucker(rng, shape):
             for n in range(d):
                 cols[n].append([Us[n][i][j[n]] for i in range(shape[n])])
     kf = [[[cols[n][r][i] for r in range(len(weights))] for i in range(shape[n])] for n in range(d)]
-    return {"shape": list(shape), "data": data, "kw": weights, "kf": kf, "tcs": cshape, "tcore": core, "tf": Us}
+    b = {"shape": list(shape), "data": data, "kw": weights, "kf": kf, "tcs": cshape, "tcore": core, "tf": Us}
+    if fkinds and "gridnorm" in fkinds:
+        b["fexp"] = [-cu.GRID_BITS if k == "gridnorm" else 0 for k in fkinds]
+    return b
 
 
-def _bundle_dense(rng, shape):
+def _bundle_dense(rng, shape, lo=-3, hi=4):
     d = len(shape)
     while True:
-        data = tgen.rand_dense(rng, shape, rng.choice([0.5, 0.8, 1.0]))
+        data = tgen.rand_dense(rng, shape, rng.choice([0.5, 0.8, 1.0]), lo, hi)
         if any(data):
             break
     subs = tgen.all_subs(shape)
@@ -135,6 +167,98 @@ def gen_cases(rng, tier):
                         rs = [rng.randint(1, shp[n]) for n in modes]
                         cases.append(Case("seq", dict(bs, repr=rp, modes=modes, rs=rs, flip=rng.random() < 0.8),
                                           any(shp[n] >= 2 for n in modes)))
+    cases += _gen_variants(rng, big)
+    return cases
+
+
+DTYPES = (("float32", -3, 4), ("int64", -3, 4), ("int32", -80000, 80000), ("int16", -400, 400), ("int8", -50, 50), ("uint8", 0, 255), ("uint16", 0, 60000))
+SHAPES_VQ = [(4, 3, 2), (3, 1, 2), (5, 2), (2, 2, 3, 2)]
+SHAPES_VT = SHAPES_VQ + [(1, 3, 2), (3, 4), (2, 5, 2), (4, 1, 1), (3, 3, 3), (6, 2, 2)]
+
+
+def _pick_nr(rng, shp, cap=None):
+    n = rng.randrange(len(shp))
+    top = shp[n] if cap is None else max(1, min(shp[n], cap[n]))
+    r = rng.choice([1, top, rng.randint(1, top)])
+    return n, r
+
+
+def _emit(cases, b, rp, n, r, flip, shp):
+    a = dict(b, n=n, r=r, flip=flip, repr=rp)
+    if rp == "sparse":
+        if shp[n] == 1 or all(s == 1 for k, s in enumerate(shp) if k != n):
+            return          # refused by sptensor.nvecs / known finding C14-F2 (covered by the main stream)
+        cases.append(Case("sp_gram", a, shp[n] >= 2))
+    else:
+        cases.append(Case("nvecs", a, shp[n] >= 2))
+
+
+def _gen_variants(rng, big):
+    """holders in C order / as non-contiguous views, data scaled by 2^(+-24), narrow integer dtypes of a dense tensor, Tucker / Kruskal
+    factors with unit-norm (orthogonal and not) columns, and sequences of nvecs calls on one object with other operations between"""
+    cases = []
+    for shp in (SHAPES_VT if big else SHAPES_VQ):
+        d = len(shp)
+
+        def fresh(kind=None):
+            kind = kind or rng.choice([_bundle_tucker, _bundle_dense])
+            b = kind(rng, shp)
+            b["order"] = rng.choice(["sorted", "reversed", "random"])
+            b["sseed"] = rng.randrange(10 ** 6)
+            return b
+        # memory layout of the holders
+        for lay in ("C", "view"):
+            for rp in REPRS:
+                for _ in range(2 if big else 1):
+                    b = fresh()
+                    n, r = _pick_nr(rng, shp)
+                    _emit(cases, dict(b, lay=lay), rp, n, r, rng.random() < 0.8, shp)
+        # magnitudes
+        for e in (24, -24) + ((7, -40) if big else ()):
+            for rp in REPRS:
+                b = fresh()
+                n, r = _pick_nr(rng, shp)
+                _emit(cases, dict(b, exp=e, kexp_in=rng.choice(["weights", "factor"]), lay=rng.choice(["F", "F", "C"])), rp, n, r,
+                      rng.random() < 0.8, shp)
+        # dtype of a dense tensor's data
+        for dt, lo, hi in DTYPES:
+            b = _bundle_dense(rng, shp, lo, hi)
+            b["order"], b["sseed"] = "sorted", 0
+            for _ in range(2 if big else 1):
+                n, r = _pick_nr(rng, shp)
+                _emit(cases, dict(b, dtype=dt), "dense", n, r, rng.random() < 0.8, shp)
+        # structured factors: the requested mode's factor has unit-norm columns (orthogonal / not orthogonal / generic directions)
+        for fk in ("unit", "ortho") + (("gridnorm",) if (big or shp == SHAPES_VQ[0]) else ()):
+            for n in range(d):
+                kinds = [rng.choice(["generic", fk]) for _ in range(d)]
+                kinds[n] = fk
+                if fk == "gridnorm":
+                    kinds = ["gridnorm" if k == n else "generic" for k in range(d)]
+                b = _bundle_tucker(rng, shp, kinds)
+                b["order"] = rng.choice(["sorted", "reversed", "random"])
+                b["sseed"] = rng.randrange(10 ** 6)
+                for rp in ("ttensor", "ttensor_sp", "ktensor"):
+                    for r in sorted({1, max(1, min(shp[n], b["tcs"][n]))}):
+                        _emit(cases, b, rp, n, r, rng.random() < 0.8, shp)
+        # sequences on one object with other operations between the calls
+        for rp in ("ktensor", "ktensor", "ttensor", "ttensor_sp", "dense", "sparse"):
+            for rep in range(2 if big else 1):
+                b = fresh(_bundle_tucker if rp in ("ktensor", "ttensor", "ttensor_sp") else None)
+                for _ in range(20):
+                    if rp != "ktensor" or any(abs(w) != 1 for w in b["kw"]):
+                        break
+                    b = fresh(_bundle_tucker)
+                modes = [k for k in range(d)
+                         if rp != "sparse" or (shp[k] > 1 and not all(s == 1 for j, s in enumerate(shp) if j != k))]
+                if not modes:
+                    continue
+                modes = modes + [rng.choice(modes)]
+                rng.shuffle(modes)
+                rs = [rng.choice([1, shp[n], rng.randint(1, shp[n])]) for n in modes]
+                btw = [rng.choice(cu.BETWEEN[rp]) for _ in modes]
+                cases.append(Case("sp_seq" if rp == "sparse" else "seq",
+                                  dict(b, repr=rp, modes=modes, rs=rs, flip=rng.random() < 0.8, between=btw,
+                                       lay=rng.choice(["F", "C"])), any(shp[n] >= 2 for n in modes)))
     return cases
 
 
@@ -166,24 +290,7 @@ def _recorded(np, log):
             setattr(m, nm, f)
 
 
-def _mk(ttb, np, a, rp):
-    import random
-    if rp == "dense":
-        return tgen.mk_tensor(ttb, np, a["shape"], a["data"])
-    if rp == "sparse":
-        subs, vals = tgen.dense_to_sparse(a["shape"], a["data"], random.Random(a["sseed"]), a["order"])
-        return tgen.mk_sptensor(ttb, np, a["shape"], subs, vals)
-    d = len(a["shape"])
-    if rp == "ktensor":
-        R = len(a["kw"])
-        return ttb.ktensor([np.array(a["kf"][n], dtype=float).reshape((a["shape"][n], R)) for n in range(d)],
-                           np.array(a["kw"], dtype=float), copy=True)
-    if rp == "ttensor_sp":       # sparse core, dense factors
-        subs, vals = tgen.dense_to_sparse(a["tcs"], a["tcore"], random.Random(a["sseed"]), a["order"])
-        core = tgen.mk_sptensor(ttb, np, a["tcs"], subs, vals)
-    else:
-        core = tgen.mk_tensor(ttb, np, a["tcs"], a["tcore"])
-    return ttb.ttensor(core, [np.array(a["tf"][n], dtype=float).reshape((a["shape"][n], a["tcs"][n])) for n in range(d)], copy=True)
+_mk = cu.mk
 
 
 def _run_one(ttb, np, a, rp, X=None):
@@ -223,14 +330,17 @@ def run_impl(c):
     import pyttb as ttb
     a = c.args
     try:
-        if c.op == "seq":
+        if c.op in ("seq", "sp_seq"):
             X = _mk(ttb, np, a, a["repr"])           # ONE object for the whole sequence
             steps = []
-            for n, r in zip(a["modes"], a["rs"]):
+            btw = a.get("between") or [None] * len(a["modes"])
+            for k, (n, r, bo) in enumerate(zip(a["modes"], a["rs"], btw)):
                 an = dict(a, n=n, r=r)
                 st = _run_one(ttb, np, an, a["repr"], X)
                 st["cert"] = _cert(np, an)
                 steps.append(st)
+                if bo is not None:
+                    cu.apply_between(ttb, np, X, bo, k)
             return {"steps": steps}
         if c.op in ("agree", "sp_agree"):
             o = {"cert": _cert(np, a)}
@@ -257,16 +367,29 @@ def _grepr(a, rp):
     return f"(RTucker {tgen.gttensor(a['tcs'], a['tcore'], a['tf'])})"       # ttensor and ttensor_sp: same denotation
 
 
+def _gmats(ms):
+    return "[" + "; ".join(tgen.gmatrix(m) for m in ms) + "]"
+
+
 def _all_int(m):
     return all(isinstance(x, int) for row in m for x in row)
 
 
-def _e_gram(a, o, rp):
-    if "Y" not in o or not _all_int(o["Y"]):
+def _e_gram(a, o, rp, inexact=False):
+    """recorded solver input (divided exactly by 4^(total exponent)) against the Gram matrix of the integer denotation: equal when
+    every product the code forms is exact, otherwise within 1e-12 * trace"""
+    if "Y" not in o or any(isinstance(x, str) for row in o["Y"] for x in row):
         return "false"
+    Y = cu.unscale_exact(o["Y"], 2 * cu.total_exp(a))
+    if inexact or not cu.is_exact(a):
+        return f"gram_recorded_close {_grepr(a, rp)} {a['n']} {gqmat(Y)}"
+    if not _all_int(Y):
+        return "false"
+    o = dict(o, Y=Y)
     e = f"gram_recorded_ok {_grepr(a, rp)} {a['n']} {gzmat(o['Y'])}"
     if rp == "dense":
         e += f" && mat_eqb (gram_dense_code {tgen.gdense(a['shape'], a['data'])} {a['n']}) {gzmat(o['Y'])}"
+        e += f" && omat_eqb (gram_dense_tm_code {tgen.gdense(a['shape'], a['data'])} {a['n']}) {gzmat(o['Y'])}"
     if rp == "ktensor":
         e += f" && mat_eqb (gram_k_code {tgen.gktensor(a['kw'], a['kf'])} {a['n']}) {gzmat(o['Y'])}"
     if rp == "sparse":          # the COO-product model of C14_gram_sparse on the stored subscripts/values as given
@@ -275,6 +398,12 @@ def _e_gram(a, o, rp):
         e += f" && mat_eqb (gram_sp_code {tgen.gsparse(a['shape'], subs, vals)} {a['n']}) {gzmat(o['Y'])}"
     if rp in ("ttensor", "ttensor_sp"):      # the through-the-core model of C14_gram_tucker
         e += f" && mat_eqb (gram_t_code {tgen.gttensor(a['tcs'], a['tcore'], a['tf'])} {a['n']}) {gzmat(o['Y'])}"
+        if rp == "ttensor":
+            e += f" && omat_eqb (gram_t_tm_code {tgen.gttensor(a['tcs'], a['tcore'], a['tf'])} {a['n']}) {gzmat(o['Y'])}"
+        else:                   # sparse core as stored
+            import random
+            subs, vals = tgen.dense_to_sparse(a["tcs"], a["tcore"], random.Random(a["sseed"]), a["order"])
+            e += f" && gram_tsp_code {tgen.gsparse(a['tcs'], subs, vals)} {_gmats(a['tf'])} {a['n']} {gzmat(o['Y'])}"
     return e
 
 
@@ -303,12 +432,18 @@ def coq_check(c, o):
     if c.op == "nvecs":
         rp = a["repr"]
         return f"{gbool(o['is_real'])} && {_e_gram(a, o, rp)} && {_e_eig(a, o, rp)} && {_e_post(a, o)}"
-    if c.op == "seq":
+    if c.op in ("seq", "sp_seq"):
         rp = a["repr"]
         parts = []
-        for n, r, st in zip(a["modes"], a["rs"], o["steps"]):
+        btw = a.get("between") or [None] * len(a["modes"])
+        inexact = False
+        for n, r, st, bo in zip(a["modes"], a["rs"], o["steps"], btw):
             an = dict(a, n=n, r=r)
-            parts.append(f"{gbool(st['is_real'])} && {_e_gram(an, st, rp)} && {_e_eig(an, st, rp)} && {_e_post(an, st)}")
+            if c.op == "sp_seq":        # eigenvectors of the sparse path: known finding A-38; the Gram matrix is checked at every call
+                parts.append(_e_gram(an, st, rp))
+            else:
+                parts.append(f"{gbool(st['is_real'])} && {_e_gram(an, st, rp, inexact)} && {_e_eig(an, st, rp)} && {_e_post(an, st)}")
+            inexact = inexact or bo in cu.INEXACT_OPS
         return " && ".join(f"({p_})" for p_ in parts)
     if c.op == "sp_gram":
         return _e_gram(a, o, "sparse")
@@ -376,6 +511,8 @@ def oracle(c, o):
     a = c.args
     if "exc" in o:
         return f"admissible request raised {o['exc']}: {o.get('msg')}"
+    if c.op == "sp_seq":
+        return None
     if c.op == "seq":
         for k, (n, r, st) in enumerate(zip(a["modes"], a["rs"], o["steps"])):
             w = _oracle_one(dict(a, n=n, r=r), st, f"{a['repr']} call {k + 1} of {len(o['steps'])} on the same object (mode {n}, r={r})")
@@ -406,7 +543,7 @@ def _is_sparse_case(c):
 
 
 def _is_sparse_singleton(c):
-    return c.op.startswith("sp_") and c.args["shape"][c.args["n"]] == 1
+    return c.op.startswith("sp_") and "n" in c.args and c.args["shape"][c.args["n"]] == 1
 
 
 TRIGGERS = {"sparse_nvecs": _is_sparse_case, "sparse_singleton_mode": _is_sparse_singleton}
